@@ -57,3 +57,12 @@ func vpool(ev, pool string, obj interface{}, n int) {
 		h(ev, pool, reflect.ValueOf(obj).Pointer(), n)
 	}
 }
+
+// vflag turns "this context carries state it should not have" into a count
+// for the n of a "ready" event.
+func vflag(b bool) int {
+	if b {
+		return 1000
+	}
+	return 0
+}
